@@ -317,6 +317,19 @@ def _run_variant(args):
         shutil.copytree(REPO / "photon_weave", tmp / "photon_weave")
         if (REPO / "examples").exists():
             shutil.copytree(REPO / "examples", tmp / "examples")
+        if kind in ("seed", "refactor"):
+            stale = _apply_patch(tmp, payload[0] if kind == "seed" else payload)
+            if stale:
+                return (vid, "stale", stale)
+            try:
+                obs = _collect(tmp)
+            except AnalysisError as e:
+                return (vid, "FALSE-ALARM" if kind == "refactor" else "detected", f"analysis error: {e}")
+            known = load_known()["known"]
+            unl = [o for o in obs if o.status == "violation" and not any(known_match(p, o, known) for p in o.props)]
+            if kind == "seed":
+                return (vid, "detected", f"{unl[0].rule} {unl[0].where} {unl[0].key}") if unl else (vid, "MISSED", "seeded mutation is no longer reported")
+            return (vid, "FALSE-ALARM", f"{unl[0].rule} {unl[0].where} {unl[0].key}: {unl[0].msg[:80]}") if unl else (vid, "neutral-ok", "no violation reported on the refactored tree")
         if kind == "break":
             _, props, rule, where, edits = payload
             stale = apply_edits(tmp, edits)
@@ -350,8 +363,37 @@ def _run_variant(args):
         shutil.rmtree(tmp, ignore_errors=True)
 
 
+def _patch_variants():
+    """seeded mutations (/verif/seeded/*/patch.diff: must be reported) and behaviour-preserving refactorings
+    (/verif/neutral/*/patch.diff: every verdict that exists on both trees must be unchanged and no new violation appear)"""
+    import json
+    root = pathlib.Path(__file__).resolve().parent.parent
+    out = []
+    for d in sorted((root / "seeded").glob("*")):
+        if (d / "patch.diff").exists() and (d / "meta.json").exists():
+            meta = json.loads((d / "meta.json").read_text())
+            out.append(("seed", "seed:" + d.name, (str(d / "patch.diff"), sorted(meta.get("caught_by", {})))))
+    for d in sorted((root / "neutral").glob("*")):
+        if (d / "patch.diff").exists():
+            out.append(("refactor", "refactor:" + d.name, str(d / "patch.diff")))
+    return out
+
+
+def _apply_patch(tmp: pathlib.Path, patch: str) -> Optional[str]:
+    import subprocess
+    r = subprocess.run(["git", "apply", "--whitespace=nowarn", patch], cwd=tmp, capture_output=True, text=True)
+    return None if r.returncode == 0 else "patch no longer applies: " + r.stderr.strip()[:120]
+
+
 def run_selftest(pid: str, seed: int = 0, only: Optional[List[str]] = None) -> dict:
     jobs = []
+    for kind, vid, payload in _patch_variants():
+        if only is not None and vid not in only:
+            continue
+        if kind == "seed" and (pid == "all" or pid in payload[1]):
+            jobs.append((kind, vid, payload))
+        if kind == "refactor":
+            jobs.append((kind, vid, payload))
     for v in V:
         if pid == "all" or pid in v[1]:
             if only is None or v[0] in only:
